@@ -85,7 +85,8 @@ class Run:
                 else:
                     self.do_repeat3(i, op)
             else:
-                self.host.apply_host_op(op)
+                if kind != 'resolve':
+                    self.host.apply_host_op(op)
                 if kind == 'clear_cache':
                     self.cache_state.pop(op['cache'], None)
                 self.events.append([i, kind])
@@ -179,6 +180,8 @@ class Run:
             seen.add(od)
 
     def do_call(self, i, op, fault):
+        if self.c20 is not None:
+            self.c20.before_call(i, op)
         outcome, info = self.host.call(op, fault)
         self.count('op:call')
         self.count('calls:%s' % cfg_type(self.host.cfgs[op['cfg']].spec))
@@ -239,6 +242,8 @@ class Run:
 
     # -- result -------------------------------------------------------------------
     def result(self):
+        if self.c20 is not None:
+            self.distinct.update(self.c20.finish())
         nontrivial = any(h.calls >= 2 for h in self.host.cfgs.values()) or \
             any(n >= 2 for n in self.cache_calls.values())
         return {
